@@ -91,10 +91,13 @@ func (aer *AppExecResult) EncodeBinaryWithContext(w *io.BinWriter, sc *stackitem
 	w.WriteBytes(aer.Container[:])
 	w.WriteB(byte(aer.Trigger))
 	invocLen := len(aer.Invocations)
+	// The marker goes to the encoding only, the result itself is still used
+	// (notifications for subscribers) after it's stored.
+	vmState := aer.VMState
 	if invocLen > 0 {
-		aer.VMState |= saveInvocationsBit
+		vmState |= saveInvocationsBit
 	}
-	w.WriteB(byte(aer.VMState))
+	w.WriteB(byte(vmState))
 	w.WriteU64LE(uint64(aer.GasConsumed))
 	// Stack items are expected to be marshaled one by one.
 	w.WriteVarUint(uint64(len(aer.Stack)))
